@@ -284,6 +284,63 @@ pub struct Var {
     pub at: Option<Addr>,
     /// declaration block keyword (`VAR`, `VAR_INPUT`, `VAR_OUTPUT`, `VAR_GLOBAL`)
     pub block: &'static str,
+    /// program variables only: the initialiser is an EXPRESSION over globals, earlier variables of
+    /// the same program and typed literals (`init` is `None` then); evaluated by
+    /// `create_program_instance` every time the instance is (re)created
+    pub init_expr: Option<IExpr>,
+}
+
+/// Initialiser expression of a program variable (integer types only).
+#[derive(Clone, Debug, PartialEq)]
+pub enum IExpr {
+    K(i64),
+    G(String),
+    L(String),
+    Add(Box<IExpr>, Box<IExpr>),
+    Mul(Box<IExpr>, Box<IExpr>),
+}
+
+impl IExpr {
+    /// ST text; literals are typed with the variable's own type.
+    pub fn st(&self, sty: usize) -> String {
+        match self {
+            IExpr::K(k) => format!("{}#{k}", STYS[sty].st),
+            IExpr::G(n) | IExpr::L(n) => n.clone(),
+            IExpr::Add(a, b) => format!("({} + {})", a.st(sty), b.st(sty)),
+            IExpr::Mul(a, b) => format!("({} * {})", a.st(sty), b.st(sty)),
+        }
+    }
+    /// Reverse Polish, comma separated: `g:<name>` `l:<name>` `k:<int>` `+` `*`.
+    pub fn proto(&self) -> String {
+        match self {
+            IExpr::K(k) => format!("k:{k}"),
+            IExpr::G(n) => format!("g:{n}"),
+            IExpr::L(n) => format!("l:{n}"),
+            IExpr::Add(a, b) => format!("{},{},+", a.proto(), b.proto()),
+            IExpr::Mul(a, b) => format!("{},{},*", a.proto(), b.proto()),
+        }
+    }
+    pub fn globals(&self, out: &mut Vec<String>) {
+        match self {
+            IExpr::G(n) => out.push(n.clone()),
+            IExpr::Add(a, b) | IExpr::Mul(a, b) => {
+                a.globals(out);
+                b.globals(out);
+            }
+            _ => {}
+        }
+    }
+    /// The property's reading of "declared initial value": the expression over the values `g`
+    /// gives for globals and `l` for (earlier) variables of the same program.
+    pub fn eval(&self, g: &dyn Fn(&str) -> Option<i128>, l: &dyn Fn(&str) -> Option<i128>) -> Option<i128> {
+        Some(match self {
+            IExpr::K(k) => *k as i128,
+            IExpr::G(n) => g(n)?,
+            IExpr::L(n) => l(n)?,
+            IExpr::Add(a, b) => a.eval(g, l)? + b.eval(g, l)?,
+            IExpr::Mul(a, b) => a.eval(g, l)? * b.eval(g, l)?,
+        })
+    }
 }
 
 impl Var {
@@ -295,7 +352,10 @@ impl Var {
     }
     pub fn decl(&self, fbs: &[FbType]) -> String {
         let at = self.at.as_ref().map(|a| format!(" AT {}", a.st())).unwrap_or_default();
-        let init = self.init.map(|i| format!(" := {}", self.ty.lits()[i].0)).unwrap_or_default();
+        let mut init = self.init.map(|i| format!(" := {}", self.ty.lits()[i].0)).unwrap_or_default();
+        if let (Some(e), Ty::S(sty)) = (&self.init_expr, &self.ty) {
+            init = format!(" := {}", e.st(*sty));
+        }
         format!("{}{}\n    {}{} : {}{};\nEND_VAR\n", self.block, self.pol.kw(), self.name, at, self.ty.st(fbs), init)
     }
 }
@@ -385,6 +445,9 @@ impl Tgt {
 pub enum SStmt {
     /// target, increment, elementary type of the literal
     Inc(Tgt, i64, usize),
+    /// target, increment written as an UNTYPED literal (`t := t + 1`): the evaluator computes in
+    /// DINT for SINT/INT operands and stores the result as it is (tag drift)
+    IncU(Tgt, i64),
     Tog(Tgt),
     /// target, ST literal, value
     Set(Tgt, String, MVal),
@@ -395,6 +458,7 @@ impl SStmt {
     pub fn st(&self) -> String {
         match self {
             SStmt::Inc(t, k, sty) => format!("{0} := {0} + {1}#{2};", t.st(), STYS[*sty].st, k),
+            SStmt::IncU(t, k) => format!("{0} := {0} + {1};", t.st(), k),
             SStmt::Tog(t) => format!("{0} := NOT {0};", t.st()),
             SStmt::Set(t, lit, _) => format!("{} := {};", t.st(), lit),
             SStmt::Cpy(d, s) => format!("{} := {};", d.st(), s.st()),
@@ -403,6 +467,7 @@ impl SStmt {
     pub fn proto(&self) -> String {
         match self {
             SStmt::Inc(t, k, _) => format!("inc {} {k}", t.proto()),
+            SStmt::IncU(t, k) => format!("incu {} {k}", t.proto()),
             SStmt::Tog(t) => format!("tog {}", t.proto()),
             SStmt::Set(t, _, v) => format!("set {} {}", t.proto(), v.show()),
             SStmt::Cpy(d, s) => format!("cpy {} {}", d.proto(), s.proto()),
@@ -531,6 +596,30 @@ pub enum Step {
     Field(Vec<u8>),
     /// new process: build, set store, optional `restart(mode)` as run.rs does, load
     Power(Option<Mode>),
+    /// hand the runtime to a resource THREAD (scheduler.rs `ResourceRunner::spawn`, paused) and
+    /// queue these restart requests through its restart signal; last step of a history
+    Sched(Vec<(When, Mode)>),
+}
+
+/// When a restart request reaches the restart signal of the resource thread.
+#[derive(Clone, Copy, Debug, PartialEq, Eq)]
+pub enum When {
+    /// before the resource thread starts (start gate still closed)
+    Pre,
+    /// while the resource thread is idle (every earlier request has been carried out)
+    Idle,
+    /// while the resource thread is carrying out the previous request (inside its retain load)
+    During,
+}
+
+impl When {
+    pub fn word(self) -> &'static str {
+        match self {
+            When::Pre => "pre",
+            When::Idle => "idle",
+            When::During => "during",
+        }
+    }
 }
 
 #[derive(Clone, Debug)]
@@ -657,8 +746,9 @@ impl Case {
             out.push(format!("p {}", p.inst));
             for v in &p.vars {
                 let pol = p.effective_pol(v).code();
-                match &v.ty {
-                    Ty::Fb(i) => out.push(format!("pv {} {} {} fb {}", p.inst, v.name, pol, self.fbs[*i].name)),
+                match (&v.ty, &v.init_expr) {
+                    (Ty::S(i), Some(e)) => out.push(format!("pv {} {} {} x {} {}", p.inst, v.name, pol, STYS[*i].tag, e.proto())),
+                    (Ty::Fb(i), _) => out.push(format!("pv {} {} {} fb {}", p.inst, v.name, pol, self.fbs[*i].name)),
                     _ => out.push(format!("pv {} {} {} v {}", p.inst, v.name, pol, v.init_val().show())),
                 }
                 if let (Some(a), Ty::S(i)) = (&v.at, &v.ty) {
